@@ -1094,6 +1094,28 @@ def _normalise(n, F, depth, tail=False, under_try=False):
                                        "init": {"k": "Call", "ty": out["ty"], "sp": out["sp"], "fn": "std::vec::Vec::<T>::new", "local": False, "gen": [], "hir_call": True, "args": []}, "else": None},
                                       {"k": "Expr", "e": loop}],
                             "expr": outv, "collected": True}
+    # (2a) `iter.map(closure).collect::<Result<Vec<_>, _>>()?` is the loop that pushes `closure body?` in order
+    if k == "Try" and call_is(peel(out["arg"]), "Iterator::collect") and str(peel(out["arg"]).get("ty") or "").startswith("std::result::Result<std::vec::Vec<"):
+        c_ = peel(out["arg"])
+        m = peel(c_["args"][0]) if c_["args"] else {}
+        if call_is(m, "Iterator::map") and peel(m["args"][1]).get("k") == "Closure":
+            clo = F.fns.get(peel(m["args"][1])["def"])
+            ps = [p for p in clo.thir["params"] if p.get("pat") is not None] if clo is not None and clo.thir is not None else []
+            cbody = _unreturn(clo.raw_body) if ps else None
+            if len(ps) == 1 and not any(x.get("k") in ("Return", "Try") for x in walk(cbody)):
+                sp = out["sp"]
+                _inline_counter[0] += 1
+                vid = 1000000 * _inline_counter[0] + 999994
+                vty = out.get("ty")
+                outv = {"k": "Var", "ty": vty, "sp": sp, "name": "collected", "id": vid}
+                item = {"k": "Try", "ty": "?", "sp": sp, "arg": _normalise(cbody, F, depth + 1)}
+                push = {"k": "Call", "ty": "()", "sp": sp, "fn": "std::vec::Vec::<T, A>::push", "local": False, "gen": [], "hir_call": False, "args": [outv, item]}
+                loop = {"k": "For", "ty": "()", "sp": sp, "pat": ps[0]["pat"], "iter": m["args"][0], "body": push}
+                return {"k": "Block", "ty": vty, "sp": sp, "unsafe": False,
+                        "stmts": [{"k": "Let", "sp": sp, "pat": {"k": "Bind", "ty": vty, "name": "collected", "id": vid, "mode": "BindingMode(No, Mut)", "sub": None},
+                                   "init": {"k": "Call", "ty": vty, "sp": sp, "fn": "std::vec::Vec::<T>::new", "local": False, "gen": [], "hir_call": True, "args": []}, "else": None},
+                                  {"k": "Expr", "e": loop}],
+                        "expr": outv, "collected": True}
     # (2b) short-circuiting adaptors with a closure are the flag loops they stand for
     if k == "Call" and (out.get("fn") or "").endswith(("Iterator::any", "Iterator::all")) and len(out["args"]) == 2 and peel(out["args"][1]).get("k") == "Closure":
         clo = F.fns.get(peel(out["args"][1])["def"])
